@@ -31,7 +31,17 @@ def addr? (s : String) : Option Nat :=
 
 def listOf (s : String) : List String := if s == "-" then [] else s.splitOn ","
 
-/-- `set <prefixes> <addresses>` -> one 0/1 per address. -/
+/-- `<own rules>|<indices of referenced sets>` -> one `ip_set` plugin of a configuration. -/
+def setDef? (s : String) : Option SetDef :=
+  match s.splitOn "|" with
+  | [own, refs] =>
+    match (listOf own).mapM prefix?, (listOf refs).mapM String.toNat? with
+    | some own, some refs => some ⟨own, refs⟩
+    | _, _ => none
+  | _ => none
+
+/-- `set <prefixes> <addresses>` -> one 0/1 per address;
+`sets <plugin>;<plugin>;... <addresses>` -> the plugins are built in that order (`buildSets`), one 0/1 string per plugin. -/
 def handle : List String → String
   | ["set", ps, as] =>
     match (listOf ps).mapM prefix?, (listOf as).mapM addr? with
@@ -39,6 +49,13 @@ def handle : List String → String
       let l := sortByLo (ps.map Iv.ofPrefix)
       let out := mergeRev l
       String.ofList (as.map (fun a => if containsRev out a then '1' else '0'))
+    | _, _ => "bad-op"
+  | ["sets", ds, as] =>
+    match (ds.splitOn ";").mapM setDef?, (listOf as).mapM addr? with
+    | some ds, some as =>
+      match buildSets [] ds with
+      | some ms => "/".intercalate (ms.map (fun m => String.ofList (as.map (fun a => if m a then '1' else '0'))))
+      | none => "unknown-set"
     | _, _ => "bad-op"
   | _ => "bad-op"
 
